@@ -198,6 +198,8 @@ class SCTPParser(HeaderParser):
         fields.append(FieldDescriptor(id=SCTPFields.CHUNK_LENGTH, position=0, value=chunk_length))
         
         chunk_length_value: int = chunk_length.value(type='unsigned int') * 8
+        if buffer.length < 32 or chunk_length_value < 32:
+            raise ParserError(buffer=buffer, message=f'truncated chunk header or chunk length too short: {chunk_length_value} < 32')
             
         # Chunk Value: variable length
         chunk_value_length = chunk_length_value - 32  # Length includes the 4 bytes of type, flags, and length
@@ -622,6 +624,8 @@ class SCTPParser(HeaderParser):
         ])
         
         parameter_length_value: int = parameter_length.value() * 8
+        if buffer.length < 32 or parameter_length_value < 32:
+            raise ParserError(buffer=buffer, message=f'truncated parameter header or parameter length too short: {parameter_length_value} < 32')
         parameter_value_length: int = parameter_length_value - 32
         if parameter_value_length > 0:
             parameter_value: Buffer = buffer[32: parameter_length_value]
